@@ -7,7 +7,7 @@ SRC="$1"; ID="$2"; shift 2; CHECKS="$*"
 export GOFLAGS=-mod=mod GOPROXY=off GOSUMDB=off GOTOOLCHAIN=local
 WT=$(mktemp -d /tmp/confirm-XXXXXX); rmdir "$WT"
 git -C /repo worktree add -q --detach "$WT" HEAD || exit 2
-cleanup() { git -C /repo worktree remove --force "$WT" 2>/dev/null; git -C /repo checkout -- . ; }
+cleanup() { git -C /repo worktree remove --force "$WT" 2>/dev/null; }
 trap cleanup EXIT
 cd "$WT"
 cp "$SRC/demo_test.go" ./zz_demo_test.go
@@ -20,11 +20,10 @@ DEMO_MUT=$(go test -vet=off -count=1 -run 'TestDemo' . >/dev/null 2>&1 && echo p
 rm zz_demo_test.go
 echo "confirm: demo-on-clean=$DEMO_CLEAN suite-with-patch=$SUITE demo-with-patch=$DEMO_MUT"
 cd /verif
-git -C /repo apply "$SRC/patch.diff" || exit 2
+# the scratch worktree still has the patch applied: run the checks against it (VERIF_REPO), /repo and /verif/evidence stay untouched
 for c in $CHECKS; do
-  OUT=$(./checks/run.sh $c quick 2>&1)
+  OUT=$(VERIF_REPO="$WT" ./checks/run.sh $c quick 2>&1)
   RC=$?
   echo "check $c: exit=$RC $(echo "$OUT" | grep -c '^VIOLATION') violation line(s); first: $(echo "$OUT" | grep -A1 '^VIOLATION' | grep signature | head -2 | tr '\n' ' ')"
   [ $RC -eq 2 ] && echo "$OUT" | grep -i "HARNESS" | head -3
 done
-git -C /repo checkout -- .
